@@ -396,6 +396,40 @@ fn vmax_2p53(b: Bencher) {
     b.bench(|| vcall("vmax_2p53"));
 }
 
+/// scalar `threads = 64` (run in test mode: one call on each of 64 threads)
+#[divan::bench(threads = 64, sample_count = 65, sample_size = 1)]
+fn thr64(b: Bencher) {
+    run("thr64");
+    b.bench(|| call("thr64"));
+}
+
+/// the ceiling written in the attribute, external time in the generator: `skip_ext_time` can then be
+/// the ONLY option given at run time
+#[divan::bench(max_time = 0.000001, sample_size = 1)]
+fn vattr_max(b: Bencher) {
+    run("vattr_max");
+    b.with_inputs(vgen).bench_values(|x| {
+        vcall("vattr_max");
+        x
+    });
+}
+
+#[divan::bench_group(max_time = 0.000001, sample_size = 1)]
+mod vmgrp {
+    use super::{run, vcall, vgen};
+    use divan::Bencher;
+
+    /// ceiling and size inherited from the group
+    #[divan::bench]
+    fn vgrp_max(b: Bencher) {
+        run("vgrp_max");
+        b.with_inputs(vgen).bench_values(|x| {
+            vcall("vgrp_max");
+            x
+        });
+    }
+}
+
 /// On the OS timer: every call really takes at least 400 ms.
 #[divan::bench(sample_count = 6, sample_size = 1)]
 fn os_sleep400(b: Bencher) {
@@ -456,6 +490,9 @@ const ALL: &[&str] = &[
     "hx_loop_e2e::vmax_durmax",
     "hx_loop_e2e::vmin_u64max",
     "hx_loop_e2e::vmin_durmax",
+    "hx_loop_e2e::thr64",
+    "hx_loop_e2e::vattr_max",
+    "hx_loop_e2e::vmgrp::vgrp_max",
     "hx_loop_e2e::vmin_big",
     "hx_loop_e2e::vmax_2p53",
 ];
